@@ -99,9 +99,87 @@ NEEDS = {
             'constructors competing for one position, different hash seeds',
     'C18b': 'late ddmin mutators collected by set difference: two late '
             'mutators competing for one term, different hash seeds',
+    'C01c': '--wrap-lines may break inside string literals / quoted symbols '
+            '(find from pos instead of pos + 1): expression longer than 78 '
+            'columns with a blank inside a quoted token at the wrap column',
+    'C01d': 'private copies of command and cross-check command keep their '
+            'base names: -c with two different files of the same base name',
+    'C02c': 'see seeded/C02c/NOTES.md',
+    'C02d': 'see seeded/C02d/NOTES.md',
+    'C03c': 'get_sort no longer caches unknown: arithmetic chain nested 20 '
+            'deep in the first operand over a term of unknown sort '
+            '(exponential filter time)',
+    'C03d': 'LetSubstitution ignores capture by the binding\'s own symbol: '
+            '(let ((x (+ x 1))) (> x 0)), 2-cycle with ReplaceByChild',
+    'C04c': 'see seeded/C04c/NOTES.md',
+    'C04d': 'see seeded/C04d/NOTES.md',
+    'C05c': 'worker cache of the unpickled base keyed by its length: '
+            'parallel ddmin, an accepted step that keeps the pickle size '
+            '(7 -> 0), then a second step in the same batch',
+    'C05d': 'temporary file name cached in a module global before the pool '
+            'is forked: -j >= 2, ddmin/hybrid, workers sharing one file',
+    'C06c': 'os.remove then os.rename instead of os.replace: crash / reader '
+            'between the two calls on the second or later rewrite',
+    'C06d': 'hierarchical writes the file after the result loop instead of '
+            'at the acceptance: interrupt while slow sibling checks drain, '
+            '-j >= 2',
+    'C07c': 'checking renderer caches renderings by id(expr) (memory '
+            'address): a history in which top-level nodes are freed and '
+            'their addresses reused',
+    'C07d': 'default output drops empty physical lines: a literal or quoted '
+            'symbol containing an empty line',
+    'C08c': 'comment directly after an opening parenthesis is yielded at top '
+            'level (emptiness test instead of None test)',
+    'C08d': 'a ; directly after a plain token no longer ends the token',
+    'C09c': 'subprocess text mode translates CR / CRLF to LF before the '
+            'comparison: candidate output differing only in line endings',
+    'C09d': 'an ignored stream with a match string must contain the string: '
+            '--ignore-out with --match-out (or --ignore-output with a match)',
+    'C10c': 'wall-clock limit rounded up to ceil(limit): non-integer limit '
+            'and a candidate running between limit and ceil(limit)',
+    'C10d': 'match-string validation skipped when the golden output is None: '
+            'golden run killed at an explicit --timeout with --match-out/err',
+    'C11c': 'fresh declarations inserted after the last set-info/set-logic: '
+            'a set-info after the first ordinary command',
+    'C11d': 'structural keys ignored once the identity keys are used up: a '
+            'map mixing identity and structural keys',
+    'C12c': 'deepcopy treats every child-less node as a leaf: a tree '
+            'containing ()',
+    'C12d': 'count_exprs skips the head of a list: a list whose first element '
+            'is a list (indexed operators, binder lists)',
+    'C13c': 'hierarchical reduplicates only the rewritten top-level commands: '
+            'replacement object that also lives in an untouched command '
+            '(inlined 0-ary define-fun), then an identity-keyed step',
+    'C13d': 'reduplicate copies a shared empty list through the leaf path: '
+            '() becomes (())',
+    'C14c': 'theory detection credits a declaration to one theory only: '
+            '(Array Int (_ BitVec 8)) as the only bit-vector declaration',
+    'C14d': 'ddmin drops CheckSatAssuming when EraseNode is disabled: '
+            '--no-erase-node, strategy ddmin/hybrid',
+    'C15c': 'BVReduceBW checks freshness of _v with is_var: _v declared as a '
+            'function with arguments',
+    'C15d': 'StringSimplifyConstant yields its two edge candidates unchecked: '
+            'a literal whose content starts or ends with an escaped quote',
+    'C16c': 'declare-datatypes loop variable shadows the datatype index: a '
+            'block of two datatypes, a constructor with k selectors (k-1 != '
+            'position) followed by another constructor',
+    'C16d': 'selector application typed by the argument position of ANY '
+            'constructor: selector applied to another constructor of the '
+            'datatype',
+    'C17c': 'width of concat with an operand of unknown width summed with '
+            'the marker: extract of zero_extend of such a concat',
+    'C17d': 'BVEvalExtend sign test val > 2**(w-1): sign_extend of exactly '
+            'the minimum signed value',
+    'C18c': 'hierarchical main loop drops late results by task.runtime: -j 1 '
+            'with the main process delayed between a result and the abort '
+            'signal for longer than one check',
+    'C18d': 'fresh declarations of a grouped ddmin step passed through a set: '
+            'two declarations in one step, different hash seeds',
 }
 # checks of other properties that also see a change
-ALSO = {'C01b': ['C09'], 'C02b': ['C04'], 'C04b': ['C02'], 'C15b': ['C11'],
+ALSO = {'C01c': ['C07'], 'C11c': ['C15'], 'C10d': ['C04'], 'C17c': ['C16'],
+        'C18c': ['C05'], 'C05d': ['C01'], 'C03d': ['C17'],
+        'C01b': ['C09'], 'C02b': ['C04'], 'C04b': ['C02'], 'C15b': ['C11'],
         'C13a': ['C12'], 'C11b': ['C17'], 'C17b': ['C11']}
 
 
